@@ -5,7 +5,9 @@
 (* (nullable measure, non-nullable measure, identifier), and the           *)
 (* structural violations of a table (duplicate / null / missing            *)
 (* identifiers, missing non-nullable column, several datapoints without    *)
-(* identifiers), alone and combined.  Emits each table with the documented *)
+(* identifiers), alone and combined, and whole columns holding every valid  *)
+(* representation of a type in every rotation.  Emits each table with the  *)
+(* documented                                                              *)
 (* verdict and the values an accepted table denotes.                       *)
 (***************************************************************************)
 EXTENDS VTLFormats, Json
@@ -27,6 +29,17 @@ CellTables(t) ==
     /\ \A a, b \in DOMAIN cs : (a < b /\ cs[a].den = cs[b].den /\ cs[a].den \notin {Invalid, Undet, NullV}) =>
          Emit(Table("dup." \o t \o "." \o cs[a].form \o "+" \o cs[b].form, <<Col("C", "I", t, FALSE), Col("Me_0", "M", "Integer", TRUE)>>, {1, 2},
                     <<<<cs[a], IdCell(1)>>, <<cs[b], IdCell(2)>>>>))
+
+\* whole COLUMNS of one type: every valid cell of the type (and the null) in one measure column, in every rotation of the pool
+\* order, so that each representation is once the first value of its column (nothing may be decided from the first values only)
+ColumnTables(t) ==
+    LET cs == CellsOf(t)
+        idx == SelectSeq([k \in DOMAIN cs |-> k], LAMBDA k : cs[k].den \notin {Invalid, Undet})
+        n == Len(idx)
+        Rot(r) == [j \in 1..n |-> idx[((j + r - 2) % n) + 1]]
+    IN  \A r \in 1..n :
+          Emit(Table("column." \o t \o ".first-" \o cs[idx[r]].form, <<Col("Id_0", "I", "Integer", FALSE), Col("C", "M", t, TRUE)>>, {1, 2},
+                     [j \in 1..n |-> <<IdCell(j), cs[Rot(r)[j]]>>]))
 
 S2 == <<Col("Id_1", "I", "Integer", FALSE), Col("Id_2", "I", "String", FALSE), Col("Me_1", "M", "Number", TRUE), Col("Me_2", "M", "String", FALSE)>>
 N(x) == Cell("decimal", x, <<2, <<1, 1>>>>)
@@ -52,7 +65,7 @@ StructTables ==
 VARIABLE i
 Init == i = 0
 Next == /\ i <= Len(TypeSeq)
-        /\ IF i = 0 THEN StructTables ELSE CellTables(TypeSeq[i])
+        /\ IF i = 0 THEN StructTables ELSE (CellTables(TypeSeq[i]) /\ ColumnTables(TypeSeq[i]))
         /\ i' = i + 1
 \* sanity of the pools: every type has valid, invalid and null cells; calendar-invalid dates really are invalid dates
 PoolsSane == /\ \A a \in DOMAIN TypeSeq : \E k \in DOMAIN CellsOf(TypeSeq[a]) : CellsOf(TypeSeq[a])[k].den \notin {Invalid, Undet, NullV}
